@@ -1,3 +1,3 @@
 #include "hcommon.h"
-extern const struct mc_family fam_mu, fam_sem, fam_cv, fam_muwait, fam_once, fam_counter, fam_refcnt, fam_note, fam_waitn, fam_debugseq, fam_starve, fam_alloc, fam_toy;
-const struct mc_family *const mc_families[] = { &fam_mu, &fam_sem, &fam_cv, &fam_muwait, &fam_once, &fam_counter, &fam_refcnt, &fam_note, &fam_waitn, &fam_debugseq, &fam_starve, &fam_alloc, &fam_toy, NULL };
+extern const struct mc_family fam_mu, fam_sem, fam_cv, fam_muwait, fam_once, fam_counter, fam_refcnt, fam_note, fam_waitn, fam_debugseq, fam_starve, fam_alloc, fam_toy, fam_adversary;
+const struct mc_family *const mc_families[] = { &fam_mu, &fam_sem, &fam_cv, &fam_muwait, &fam_once, &fam_counter, &fam_refcnt, &fam_note, &fam_waitn, &fam_debugseq, &fam_starve, &fam_alloc, &fam_toy, &fam_adversary, NULL };
